@@ -287,6 +287,7 @@ func (st *State) shareAddr(a uint64) {
 	if o.shared {
 		return
 	}
+	o = st.wobj(o)
 	o.shared = true
 	// scan for pointers
 	for off := 0; off+8 <= o.size; off += 8 {
